@@ -42,6 +42,63 @@ def _draw_n(rng, tier):
     return rng.randint(61, 400)
 
 
+def _renumber(x, pos):
+    """Shift references to results of steps at index >= pos by one (a step is being inserted at pos)."""
+    if isinstance(x, dict):
+        if 'res' in x and isinstance(x['res'], int) and x['res'] >= pos:
+            x['res'] += 1
+        for v in x.values():
+            _renumber(v, pos)
+    elif isinstance(x, list):
+        for v in x:
+            _renumber(v, pos)
+
+
+def _swap_pool(x, a, b):
+    if isinstance(x, dict):
+        if x.get('pool') == a:
+            x['pool'] = b
+        for v in x.values():
+            _swap_pool(v, a, b)
+    elif isinstance(x, list):
+        for v in x:
+            _swap_pool(v, a, b)
+
+
+def _add_sibling_repeats(rng, client, pool):
+    """Right after up to two calls that take a pool curve, the same call on a look-alike sibling of that curve
+    (same x grid, same end points, nearly or partly the same y): "last query" state keyed too coarsely answers
+    the second call with the first call's result.  Always compared with a pristine process."""
+    sib_of = {}
+    for i, o in enumerate(pool):
+        if o['kind'] == 'curve' and o.get('sibling') is not None:
+            sib_of.setdefault(o['sibling'], []).append(i)
+            sib_of.setdefault(i, []).append(o['sibling'])
+    if not sib_of:
+        return
+    # the catalogue reuses spec objects across steps (deepcopy would keep them shared): unshare before renumbering
+    client['steps'] = _json.loads(_json.dumps(client['steps']))
+    cand = []
+    for k, st in enumerate(client['steps']):
+        if st['fn'].startswith('caller.') or st.get('nodup'):
+            continue
+        refs = [r_ for r_ in _pool_refs(st) if r_ in sib_of]
+        uses_results = '"res"' in _json.dumps([st['args'], st['kw']])
+        if refs and not uses_results:
+            cand.append((k, refs[0]))
+    for k, ci in sorted(rng.sample(cand, min(len(cand), rng.choice([0, 1, 2]))), reverse=True):
+        st = copy.deepcopy(client['steps'][k])
+        _swap_pool(st, ci, rng.choice(sib_of[ci]))
+        st['probe'] = True
+        pos = k + 1
+        for other in client['steps']:
+            _renumber(other['args'], pos)
+            _renumber(other['kw'], pos)
+            if isinstance(other.get('variant_of'), int) and other['variant_of'] >= pos:
+                other['variant_of'] += 1
+        client['steps'].insert(pos, st)
+
+
 def _add_option_variants(rng, client):
     """Append, for up to two earlier calls, the same call with exactly one literal option changed (a threshold,
     a count, a flag).  State keyed on the data but not on the option shows as a difference from a pristine process."""
@@ -206,6 +263,7 @@ def gen_plan(rng, tier='quick', traces=None):
         kind = rng.choice(kinds_enabled) if rng.random() > 0.05 else 'soak'
         clients.append(catalog.CLIENT_KINDS[kind](ctx))
     for cl in clients:
+        _add_sibling_repeats(rng, cl, pool)
         _add_option_variants(rng, cl)
     # the scheduler: interleave at call granularity, with duplicate deliveries
     dup_rate = rng.choice([0.0, 0.05, 0.15, 0.3])
